@@ -31,7 +31,8 @@ L['C01'] = dict(modules=['Schc.Properties.C01'], level='proof', technique='Lean 
               T('C01_roundtrip_compute', 'full', 'round trip for rules with compute fields, given that the compute functions regenerate the elided values'),
               T('C01_ipv6_udp_compute', 'full', 'IPv6/UDP(/anything) packets with valid lengths and checksum: round trip with any subset of payload length, UDP length, UDP checksum computed'),
               T('C01_ipv4_udp_compute', 'full', 'IPv4/UDP(/anything) packets with valid total length, header checksum, UDP length, UDP checksum: round trip with any subset of the four computed'),
-              T('C01_sctp_compute', 'full', 'SCTP packets with a valid CRC-32c: round trip with the checksum computed')],
+              T('C01_sctp_compute', 'full', 'SCTP packets with a valid CRC-32c: round trip with the checksum computed'),
+              T('C01_end_to_end', 'full', 'from the bytes on the wire: every factory stack, every buffer its parser accepts, manager compress then decompress returns the buffer (C07 joined with C01_manager)')],
     level_text='Proved over the model for all packets/rules/rule sets under the stated hypotheses: fields+payload spell the raw packet (C07), bare functions without the direction argument: descriptors all apply to the packet direction; with the argument (C18_roundtrip, C01_manager): any rule, pairings equal/not-sent, ignore/value-sent, MSB/LSB, match-mapping/mapping-sent with Fits. Compute fields: C01_roundtrip_compute reduces the round trip to the compute functions regenerating the elided values, and C01_ipv6_udp_compute / C01_ipv4_udp_compute discharge that for the IPv6/UDP and IPv4/UDP stacks (any subset of the computable fields, valid packets; concrete valid packets are kernel-checked examples). C01_sctp_compute does the same for the SCTP checksum. So every registered compute function is covered at its stack position.')
 L['C04'] = dict(modules=['Schc.Properties.C04'], level='proof', technique='Lean 4 theorem: matcher = filter by the declarative applicability predicate',
     theorems=[T('C04_match', 'full', 'match_packet_descriptor = rules.filter Spec.applicable (soundness, completeness, order)'),
